@@ -108,7 +108,7 @@ func emitSignerCalls(c *Ctx) (string, error) {
 
 // msgServerEndpoints: the endpoints of x/metadata/keeper/msg_server.go whose signer rules C10
 // covers.  For each of them, in source order: the look-up of the stored entry, the copy
-// `proposed := existing`, the edits of the owner / data-access lists (receiver.method), the call
+// `proposed := existing`, the conversion of the optional id fields, the edits of the owner / data-access lists (receiver.method), the call
 // of the Validate… function (arguments without ctx) and the store write.
 var msgServerEndpoints = map[string]bool{
 	"WriteScope": true, "DeleteScope": true, "AddScopeDataAccess": true, "DeleteScopeDataAccess": true,
@@ -120,6 +120,9 @@ var msgServerCallees = map[string]bool{
 	"AddOwners": true, "RemoveOwners": true, "AddDataAccess": true, "RemoveDataAccess": true,
 	"SetScope": true, "SetSession": true, "SetRecord": true, "RemoveScope": true, "RemoveRecord": true,
 	"ValidateBasic": true,
+	// the optional id fields (scope_uuid, session_id_components, …) become the entry's ids: this
+	// has to happen BEFORE the look-up of the stored entry
+	"ConvertOptionalFields": true,
 }
 
 func emitMsgServerCalls(c *Ctx, files map[string]*ast.File) string {
